@@ -40,6 +40,7 @@ type zzSink struct {
 	failStop    bool
 	bg          *cptvframe.Frame
 	thresh      uint16
+	orderLabel  string // when set, every write is checked against the previous one under this label
 }
 
 func (s *zzSink) StartRecording(bg *cptvframe.Frame, th uint16) error {
@@ -65,6 +66,15 @@ func (s *zzSink) WriteFrame(f *cptvframe.Frame) error {
 		s.viol = true
 	}
 	seq := f.Status.FrameCount
+	if s.orderLabel != "" {
+		// per-write obligation (keeps each query small); the accumulated flag below
+		// then follows trivially
+		if s.fresh {
+			zzAssert(seq > s.last, s.orderLabel)
+		} else {
+			zzAssert(seq == s.last+1, s.orderLabel)
+		}
+	}
 	if s.fresh {
 		s.firstSeq = seq
 		s.fresh = false
@@ -184,7 +194,7 @@ func zzMkMP(N int) *zzMP {
 	zzAssume(0 <= h.minF && h.minF <= h.maxF && h.maxF < 1<<31)
 	zzAssume(0 <= h.T && h.T < 1<<31)
 	zzAssume(0 <= h.trig && h.trig < 1<<40)
-	h.sink = &zzSink{}
+	h.sink = &zzSink{orderLabel: "C01/C13: frames written consecutively, in order, none repeated (and never a rejected frame)"}
 	if h.isRec {
 		zzAssume(1 <= h.mIdx && h.mIdx <= h.fw && h.fw < h.wu && h.wu <= h.maxF)
 		zzAssume(h.wu == min(h.mIdx-1+h.minF, h.maxF))
